@@ -637,10 +637,36 @@ theorem skipTo_junk (cfg : LexCfg) (ds : List Byte) (junk : List Byte) (hj : ∀
     rw [ih (fun x hx => hj x (by simp [hx]))]
     simp
 
-/-- a text without delimiters (and, where NUL counts as one, without NUL) that starts with neither a blank nor `/`,
-    in front of a delimiter: everything up to the delimiter is skipped as "invalid value", severity WARNING -/
+theorem skipToRec_junk (cfg : LexCfg) (ds : List Byte) (junk : List Byte) (hj : ∀ b ∈ junk, delimAt cfg ds b = false)
+    (hsemi : ∀ b ∈ junk, b ≠ 59) (d : Byte) (hd : delimAt cfg ds d = true) (rest : List Byte) :
+    ∀ (q : Bool) (c : Byte) (l : List Byte),
+      skipToRec cfg ds q c l (junk ++ d :: rest) = (d, d :: (junk.reverse ++ l), rest, false, false) := by
+  induction junk with
+  | nil => intro q c l; simp [skipToRec, hd]
+  | cons b t ih =>
+    intro q c l
+    have hb : delimAt cfg ds b = false := hj b (by simp)
+    have h59 : (b == 59) = false := by simpa using hsemi b (by simp)
+    simp only [List.cons_append, skipToRec, hb, Bool.false_eq_true, if_false, h59, Bool.false_and]
+    split <;> (rw [ih (fun x hx => hj x (by simp [hx])) (fun x hx => hsemi x (by simp [hx]))]; simp)
+
+/-- the recovery loop of either shape over a text without delimiters (and without `;` where the loop ends at one) -/
+theorem skipGarbage_junk (cfg : LexCfg) (ds : List Byte) (junk : List Byte) (hj : ∀ b ∈ junk, delimAt cfg ds b = false)
+    (hsemi : cfg.criStopsAtSemicolon = true → ∀ b ∈ junk, b ≠ 59) (d : Byte) (hd : delimAt cfg ds d = true) (rest : List Byte)
+    (c : Byte) (l : List Byte) :
+    skipGarbage cfg ds c l (junk ++ d :: rest) = (d, d :: (junk.reverse ++ l), rest, false, false) := by
+  unfold skipGarbage
+  cases hs : cfg.criStopsAtSemicolon
+  · simp [skipTo_junk cfg ds junk hj d hd rest c l]
+  · simp [skipToRec_junk cfg ds junk hj (hsemi hs) d hd rest false c l]
+
+/-- a text without delimiters (and, where NUL counts as one, without NUL; without `;` where the recovery loop ends at one)
+    that starts with neither a blank nor `/`, in front of a delimiter: everything up to the delimiter is skipped as
+    "invalid value", severity WARNING -/
 theorem cri_junk (cfg : LexCfg) (j0 : Byte) (js : List Byte) (hj0s : isSpace j0 = false) (hj047 : j0 ≠ 47)
-    (hj : ∀ b ∈ j0 :: js, delimAt cfg attrDelims b = false) (l rest : List Byte) (d : Byte) (f sk : Bool) (e : Sev)
+    (hj : ∀ b ∈ j0 :: js, delimAt cfg attrDelims b = false)
+    (hsemi : cfg.criStopsAtSemicolon = true → ∀ b ∈ j0 :: js, b ≠ 59)
+    (l rest : List Byte) (d : Byte) (f sk : Bool) (e : Sev)
     (hd : d = 44 ∨ d = 41) :
     checkRemainingInput cfg (some attrDelims)
         { left := l, right := j0 :: (js ++ d :: rest), eof := false, fail := f, bad := false, skipws := sk } e =
@@ -650,9 +676,10 @@ theorem cri_junk (cfg : LexCfg) (j0 : Byte) (js : List Byte) (hj0s : isSpace j0 
   have hss := sepSkip_stop cfg l [] j0 (js ++ d :: rest) sk (by simp) hj0s hj047
   simp only [List.nil_append, List.reverse_nil] at hss
   have hj0 : delimAt cfg attrDelims j0 = false := hj j0 (by simp)
-  have hsk := skipTo_junk cfg attrDelims (j0 :: js) hj d hdd rest j0 l
+  have hsk := skipGarbage_junk cfg attrDelims (j0 :: js) hj hsemi d hdd rest j0 l
   simp only [List.cons_append] at hsk
-  simp only [checkRemainingInput, IStream.clear, Bool.false_eq_true, if_false, hss, peekC_good, hj0, hsk, hdd, if_true]
+  simp only [checkRemainingInput, IStream.clear, Bool.false_eq_true, if_false, hss, peekC_good, hj0, hsk, hdd, if_true,
+    Bool.not_false, Bool.true_and]
   rw [show IStream.putback d { left := d :: ((j0 :: js).reverse ++ l), right := rest, eof := false, fail := false, bad := false, skipws := sk } =
     G ((j0 :: js).reverse ++ l) (d :: rest) sk from putback_good d _ rest sk]
 
@@ -693,6 +720,7 @@ theorem attr_dollar_required_aggr (env : Env F) (strict : Bool) (a : AttrD) (ety
 theorem attr_derived_value (env : Env F) (strict : Bool) (a : AttrD) (hder : a.derived = true)
     (j0 : Byte) (js : List Byte) (hj0s : isSpace j0 = false) (hj047 : j0 ≠ 47) (hj042 : j0 ≠ 42)
     (hj : ∀ b ∈ j0 :: js, delimAt env.lex attrDelims b = false)
+    (hsemi : env.lex.criStopsAtSemicolon = true → ∀ b ∈ j0 :: js, b ≠ 59)
     (l : List Byte) (sk : Bool) (d : Byte) (rest : List Byte) (hd : d = 44 ∨ d = 41) :
     attrSTEPread env strict a (G l (j0 :: (js ++ d :: rest)) sk) =
       .ok (.warning, .derived, G ((j0 :: js).reverse ++ l) (d :: rest) sk) := by
@@ -704,7 +732,7 @@ theorem attr_derived_value (env : Env F) (strict : Bool) (a : AttrD) (hder : a.d
   simp only [hder, if_true, e42, Bool.false_eq_true, if_false]
   rw [show checkRemainingInput env.lex (some attrDelims) (G l (j0 :: (js ++ d :: rest)) sk) Sev.warning =
     (G ((j0 :: js).reverse ++ l) (d :: rest) sk, Sev.warning.greater .warning) from
-    cri_junk env.lex j0 js hj0s hj047 hj l rest d false sk .warning hd]
+    cri_junk env.lex j0 js hj0s hj047 hj hsemi l rest d false sk .warning hd]
   rfl
 
 /-- something that starts like no integer (a string, an enumeration item, a keyword, …; without delimiters) for an
@@ -713,6 +741,7 @@ theorem attr_integer_junk (env : Env F) (strict : Bool) (a : AttrD) (hty : a.ty 
     (j0 : Byte) (js : List Byte) (hj0s : isSpace j0 = false) (hj047 : j0 ≠ 47) (hj036 : j0 ≠ 36)
     (hj0d : isDigit j0 = false) (hj043 : j0 ≠ 43) (hj045 : j0 ≠ 45)
     (hj : ∀ b ∈ j0 :: js, delimAt env.lex attrDelims b = false)
+    (hsemi : env.lex.criStopsAtSemicolon = true → ∀ b ∈ j0 :: js, b ≠ 59)
     (l : List Byte) (sk : Bool) (d : Byte) (rest : List Byte) (hd : d = 44 ∨ d = 41) :
     attrSTEPread env strict a (G l (j0 :: (js ++ d :: rest)) sk) =
       .ok (.warning, .one (.atom .unset), G ((j0 :: js).reverse ++ l) (d :: rest) sk) := by
@@ -727,26 +756,30 @@ theorem attr_integer_junk (env : Env F) (strict : Bool) (a : AttrD) (hty : a.ty 
   have e44 : (j0 == 44) = false := by simpa using h44
   have e41 : (j0 == 41) = false := by simpa using h41
   simp only [hder, Bool.false_eq_true, if_false, e36, e44, e41, Bool.or_self, hty]
-  rw [scalarNodeReadAttr_integer, scalarNodeRead_integer]
-  simp only [readInteger]
-  rw [show (G l (j0 :: (js ++ d :: rest)) sk).ws = G l (j0 :: (js ++ d :: rest)) sk from ws_good0 l j0 _ sk hj0s]
-  have hscan : scanInt longMin longMax l (j0 :: (js ++ d :: rest)) = (⟨0, true⟩, l, j0 :: (js ++ d :: rest)) := by
-    have e43 : (j0 == 43) = false := by simpa using hj043
-    have e45 : (j0 == 45) = false := by simpa using hj045
-    have hts : takeSign l (j0 :: (js ++ d :: rest)) = (false, l, j0 :: (js ++ d :: rest)) := by
-      unfold takeSign
-      split
-      · rename_i heq; simp at heq; exact absurd heq.1 hj045
-      · rename_i heq; simp at heq; exact absurd heq.1 hj043
-      · rfl
-    simp [scanInt, hts, spanDigits, hj0d]
-  rw [extractLong_G l j0 _ sk hj0s, hscan]
-  have hcri := cri_junk env.lex j0 js hj0s hj047 hj l rest d true sk
-  simp only [IStream.failed, Bool.or_true, Bool.true_or, Bool.not_true, Bool.false_eq_true, if_false, List.isEmpty_cons]
-  cases hrep : env.lex.intReportsFail <;>
-    simp only [Sev.warnIf, Bool.false_and, Bool.and_false, Bool.true_and, Bool.and_true, Bool.not_false, if_true, if_false,
-      Bool.false_eq_true, Bool.and_self] <;>
-    rw [hcri _ hd] <;> rfl
+  rw [scalarNodeReadAttr_integer]
+  have hri : readInteger env.lex (some attrDelims) (G l (j0 :: (js ++ d :: rest)) sk) .null =
+      (none, G ((j0 :: js).reverse ++ l) (d :: rest) sk, .warning) := by
+    simp only [readInteger]
+    rw [show (G l (j0 :: (js ++ d :: rest)) sk).ws = G l (j0 :: (js ++ d :: rest)) sk from ws_good0 l j0 _ sk hj0s]
+    have hscan : scanInt longMin longMax l (j0 :: (js ++ d :: rest)) = (⟨0, true⟩, l, j0 :: (js ++ d :: rest)) := by
+      have e43 : (j0 == 43) = false := by simpa using hj043
+      have e45 : (j0 == 45) = false := by simpa using hj045
+      have hts : takeSign l (j0 :: (js ++ d :: rest)) = (false, l, j0 :: (js ++ d :: rest)) := by
+        unfold takeSign
+        split
+        · rename_i heq; simp at heq; exact absurd heq.1 hj045
+        · rename_i heq; simp at heq; exact absurd heq.1 hj043
+        · rfl
+      simp [scanInt, hts, spanDigits, hj0d]
+    rw [extractLong_G l j0 _ sk hj0s, hscan]
+    have hcri := cri_junk env.lex j0 js hj0s hj047 hj hsemi l rest d true sk
+    simp only [IStream.failed, Bool.or_true, Bool.true_or, Bool.not_true, Bool.false_eq_true, if_false, List.isEmpty_cons]
+    cases hrep : env.lex.intReportsFail <;>
+      simp only [Sev.warnIf, Bool.false_and, Bool.and_false, Bool.true_and, Bool.and_true, Bool.not_false, if_true, if_false,
+        Bool.false_eq_true, Bool.and_self] <;>
+      rw [hcri _ hd] <;> rfl
+  rw [readIntegerS_of _ _ _ _ (by rw [hri]; exact intSentinel_none _), hri]
+  rfl
 
 /-- a reference `#id` to an instance the file does not have, or to one of a type that does not conform to the
     attribute's entity type: WARNING, the attribute stays unset, the stream rests at the delimiter -/
@@ -880,6 +913,7 @@ theorem attr_enum_undeclared (env : Env F) (strict : Bool) (a : AttrD) (ty : Ele
 theorem attr_string_junk (env : Env F) (strict : Bool) (a : AttrD) (hty : a.ty = .one .string) (hder : a.derived = false)
     (j0 : Byte) (js : List Byte) (hj0s : isSpace j0 = false) (hj047 : j0 ≠ 47) (hj036 : j0 ≠ 36) (hj039 : j0 ≠ 39)
     (hj : ∀ b ∈ j0 :: js, delimAt env.lex attrDelims b = false)
+    (hsemi : env.lex.criStopsAtSemicolon = true → ∀ b ∈ j0 :: js, b ≠ 59)
     (l : List Byte) (sk : Bool) (d : Byte) (rest : List Byte) (hd : d = 44 ∨ d = 41) :
     attrSTEPread env strict a (G l (j0 :: (js ++ d :: rest)) sk) =
       .ok (.warning, .one (.atom .unset), G ((j0 :: js).reverse ++ l) (d :: rest) sk) := by
@@ -906,7 +940,7 @@ theorem attr_string_junk (env : Env F) (strict : Bool) (a : AttrD) (hty : a.ty =
   simp only [List.isEmpty_nil, if_true]
   rw [show checkRemainingInput env.lex (some attrDelims) (G l (j0 :: (js ++ d :: rest)) sk) Sev.incomplete =
     (G ((j0 :: js).reverse ++ l) (d :: rest) sk, Sev.incomplete.greater .warning) from
-    cri_junk env.lex j0 js hj0s hj047 hj l rest d false sk .incomplete hd]
+    cri_junk env.lex j0 js hj0s hj047 hj hsemi l rest d false sk .incomplete hd]
   rfl
 
 /-- nothing of a real numeral starts with this character -/
@@ -936,6 +970,7 @@ theorem realCollect_junk (j0 : Byte) (t : List Byte) (h : notNum j0) : realColle
 theorem attr_real_junk (env : Env F) (strict : Bool) (a : AttrD) (hty : a.ty = .one .real) (hder : a.derived = false)
     (j0 : Byte) (js : List Byte) (hj0s : isSpace j0 = false) (hj047 : j0 ≠ 47) (hj036 : j0 ≠ 36) (hnn : notNum j0)
     (hj : ∀ b ∈ j0 :: js, delimAt env.lex attrDelims b = false)
+    (hsemi : env.lex.criStopsAtSemicolon = true → ∀ b ∈ j0 :: js, b ≠ 59)
     (l : List Byte) (sk : Bool) (d : Byte) (rest : List Byte) (hd : d = 44 ∨ d = 41) :
     attrSTEPread env strict a (G l (j0 :: (js ++ d :: rest)) sk) =
       .ok (.warning, .one (.atom .unset), G ((j0 :: js).reverse ++ l) (d :: rest) sk) := by
@@ -950,7 +985,6 @@ theorem attr_real_junk (env : Env F) (strict : Bool) (a : AttrD) (hty : a.ty = .
   have e44 : (j0 == 44) = false := by simpa using h44
   have e41 : (j0 == 41) = false := by simpa using h41
   simp only [hder, Bool.false_eq_true, if_false, e36, e44, e41, Bool.or_self, hty]
-  rw [scalarNodeReadAttr_real]
   have hconv : env.ops.conv (IStream.scanFloat [] []).1 = .invalid := rfl
   have hrr : ∃ e0, (e0 = Sev.null ∨ e0 = Sev.warning) ∧ readReal env.ops env.lex (some attrDelims) (G l (j0 :: (js ++ d :: rest)) sk) .null =
       .ok (none, (checkRemainingInput env.lex (some attrDelims) (G l (j0 :: (js ++ d :: rest)) sk) e0).1,
@@ -968,9 +1002,10 @@ theorem attr_real_junk (env : Env F) (strict : Bool) (a : AttrD) (hty : a.ty = .
     simp only [this, Bool.false_eq_true, if_false]
     rfl
   obtain ⟨e0, he0, hrr⟩ := hrr
-  unfold scalarNodeRead
-  simp only [hrr, liftOutcome, bind, Except.bind, pure, Except.pure]
-  rw [cri_junk env.lex j0 js hj0s hj047 hj l rest d false sk e0 hd]
+  have hrrS := readRealS_of env.ops env.lex _ _ _ _ _ _ hrr (realSentinel_none env.ops)
+  unfold attrSTEPread.scalarNodeReadAttr
+  simp only [hrrS, liftOutcome, bind, Except.bind, pure, Except.pure]
+  rw [cri_junk env.lex j0 js hj0s hj047 hj hsemi l rest d false sk e0 hd]
   rcases he0 with rfl | rfl <;> simp [realValue, valueToAtom] <;> rfl
 
 /-- something that starts like no enumeration item (neither `.` nor a letter; without delimiters) for an ENUMERATION /
@@ -979,6 +1014,7 @@ theorem attr_enum_junk (env : Env F) (strict : Bool) (a : AttrD) (ty : ElemTy) (
     (hder : a.derived = false)
     (j0 : Byte) (js : List Byte) (hj0s : isSpace j0 = false) (hj047 : j0 ≠ 47) (hj036 : j0 ≠ 36) (hj046 : j0 ≠ 46)
     (hj0a : isAlpha j0 = false) (hj : ∀ b ∈ j0 :: js, delimAt env.lex attrDelims b = false)
+    (hsemi : env.lex.criStopsAtSemicolon = true → ∀ b ∈ j0 :: js, b ≠ 59)
     (l : List Byte) (sk : Bool) (d : Byte) (rest : List Byte) (hd : d = 44 ∨ d = 41) :
     attrSTEPread env strict a (G l (j0 :: (js ++ d :: rest)) sk) =
       .ok (.warning, .one (.atom .unset), G ((j0 :: js).reverse ++ l) (d :: rest) sk) := by
@@ -1005,7 +1041,7 @@ theorem attr_enum_junk (env : Env F) (strict : Bool) (a : AttrD) (ty : ElemTy) (
     simp only
     rw [show checkRemainingInput env.lex (some attrDelims) (G l (j0 :: (js ++ d :: rest)) sk) Sev.warning =
       (G ((j0 :: js).reverse ++ l) (d :: rest) sk, Sev.warning.greater .warning) from
-      cri_junk env.lex j0 js hj0s hj047 hj l rest d false sk .warning hd]
+      cri_junk env.lex j0 js hj0s hj047 hj hsemi l rest d false sk .warning hd]
     simp [enumValue, valueToAtom]
     rfl
   rcases het with rfl | rfl | ⟨items, rfl⟩ <;> (simp only [] ; rw [hmain])
